@@ -52,7 +52,8 @@ pub fn fmt_dgs(d: &[verif::VUdpIn]) -> String {
 fn gen_addr(ctx: &mut Ctx) -> SocketAddr {
     let ips = [
         "1.2.3.4", "0.0.0.0", "255.255.255.255", "10.0.0.1", "2001:db8::1", "::1:0:0:1", "fe80::1", "ffff::",
-        "1::", "0:0:0:0:0:1::",
+        "1::", "0:0:0:0:0:1::", "::ffff:192.0.2.7", "::ffff:0.0.0.0", "::ffff:255.255.255.255", "::192.0.2.7", "::1", "::",
+        "64:ff9b::102:304", "::fffe:192.0.2.7", "0:0:0:0:ffff::",
     ];
     let ip: IpAddr = ctx.rng.pick(&ips).parse().unwrap();
     let port = *ctx.rng.pick(&[0u16, 1, 53, 443, 65535, 12345]);
